@@ -128,13 +128,14 @@ pub fn edge_ops() -> Vec<OpSpec> {
 
 /// Keys of the subset driver's base trees.
 pub fn subset_keys(n: usize, keylen: usize) -> Vec<String> {
-    (0..n).map(|i| if keylen > 0 { format!("s{:02}*{}", i * 2 + 1, keylen) } else { format!("s{:02}", i * 2 + 1) }).collect()
+    // keylen 9999: mixed sizes (every third key is 300 bytes long, the others are three bytes)
+    (0..n).map(|i| if keylen == 9999 { if i % 3 == 0 { format!("s{:02}*300", i * 2 + 1) } else { format!("s{:02}", i * 2 + 1) } } else if keylen > 0 { format!("s{:02}*{}", i * 2 + 1, keylen) } else { format!("s{:02}", i * 2 + 1) }).collect()
 }
 
 /// Absent keys placed below, between and above the present ones.
 pub fn subset_absent(n: usize, keylen: usize) -> Vec<String> {
     let pos = [0usize, n / 2 | 1, n, 2 * n];
-    let mut v: Vec<String> = pos.iter().map(|i| if keylen > 0 { format!("s{:02}*{}", i, keylen) } else { format!("s{:02}", i) }).collect();
+    let mut v: Vec<String> = pos.iter().map(|i| if keylen == 9999 { if i % 2 == 0 { format!("s{:02}*300", i) } else { format!("s{:02}", i) } } else if keylen > 0 { format!("s{:02}*{}", i, keylen) } else { format!("s{:02}", i) }).collect();
     v.sort();
     v.dedup();
     v
@@ -149,7 +150,8 @@ pub struct SubsetBase {
     pub buckets: &'static [usize],
 }
 
-pub static SUBSET_BASES: [SubsetBase; 5] = [
+pub static SUBSET_BASES: [SubsetBase; 6] = [
+    SubsetBase { name: "mixed-key-sizes-n11-nested", n: 11, keylen: 9999, val: "w*120", buckets: &[5] },
     SubsetBase { name: "1level-n4", n: 4, keylen: 0, val: "v*100", buckets: &[] },
     SubsetBase { name: "2level-n6", n: 6, keylen: 0, val: "w*300", buckets: &[] },
     SubsetBase { name: "2level-n9-nested", n: 9, keylen: 0, val: "w*300", buckets: &[2, 6] },
